@@ -44,7 +44,7 @@ BUILTINS = {
     "True", "False", "None", "Exception", "ValueError", "KeyError", "TypeError", "format", "vars", "issubclass",
 }  # fmt: skip
 
-IDENTITY_WRAPPERS = {"bytes", "bytearray"}
+IDENTITY_WRAPPERS = {"bytes", "bytearray", "memoryview"}
 
 
 def _hashable(v):
@@ -183,6 +183,7 @@ class Terms:
     def __init__(self, prog: Program, resolver: Resolver, flow, inline_depth: int = 3, no_inline=()):
         self.no_inline = set(no_inline)
         self.prog = prog
+        _PROG[0] = prog
         self.res = resolver
         self.flow = flow
         self.inline_depth = inline_depth
@@ -508,6 +509,12 @@ class Terms:
             for x in args[0][1][1:]:
                 acc = _binop("Add", acc, x)
             return acc
+        # map(f, xs) is (f(x) for x in xs); list(<generator expression>) is the list comprehension
+        if fn == ("glob", "map") and len(args) == 2 and not kwargs and not any(a[0] == "star" for a in args):
+            cv = ("cvar", "_m")
+            return ("comp", "GeneratorExp", ("call", args[0], (cv,), (), self._site(f, e)), ((cv, args[1], ()),))
+        if fn == ("glob", "list") and len(args) == 1 and not kwargs and args[0][0] == "comp" and args[0][1] == "GeneratorExp":
+            return ("comp", "ListComp") + tuple(args[0][2:])
         # struct.pack(<constant format>, a..) is Struct(<format>).pack(a..): ONE spelling of a struct packer
         if fn == ("glob", "struct.pack") and args and args[0][0] == "const" and isinstance(args[0][1], str) and not kwargs and not any(a[0] == "star" for a in args):
             fn, args = ("const", StructMethod(StructConst(args[0][1]), "pack")), args[1:]
@@ -658,6 +665,24 @@ def _binop(op, l, r) -> tuple:
         if len(out) == 1:
             return out[0]
         return ("add", tuple(out))
+    if name == "Mod" and l[0] == "const" and isinstance(l[1], bytes):
+        # b"..%b.." % x  /  % (x, y): the bytes it concatenates (only %b / %s without flags, which insert a bytes-like as it is)
+        import re as _re
+
+        pieces = _re.split(rb"(%[bs%])", l[1])
+        args = list(r[1]) if r[0] == "tuple" else [r]
+        if not any(p_[:1] == b"%" and len(p_) == 1 for p_ in pieces if p_ not in (b"%b", b"%s", b"%%")) and b"%" not in b"".join(p_ for p_ in pieces if p_ not in (b"%b", b"%s", b"%%")):
+            n_spec = sum(1 for p_ in pieces if p_ in (b"%b", b"%s"))
+            if n_spec == len(args) and n_spec:
+                acc = None
+                it = iter(args)
+                for p_ in pieces:
+                    if p_ == b"":
+                        continue
+                    piece = next(it) if p_ in (b"%b", b"%s") else _const(b"%" if p_ == b"%%" else p_)
+                    acc = piece if acc is None else _binop("Add", acc, piece)
+                if acc is not None:
+                    return acc
     if l[0] == "const" and r[0] == "const":
         try:
             a, b = l[1], r[1]
@@ -1008,7 +1033,33 @@ def _comp_element(base, i: int):
     return _subst_cvars(base[2], m)
 
 
+_PROG = [None]  # the program whose NamedTuple classes `_sub` may consult (set by Terms)
+
+
+def _from_end(bound, base):
+    """`max(len(x) - k, 0)` as a slice bound of x is `-k` (k > 0): the last k items / all but the last k, for every length"""
+    b = strip_sites(bound) if bound is not None else None
+    if b and b[0] == "call" and b[1] == ("glob", "max") and len(b[2]) == 2 and not b[3]:
+        for x, z in (b[2], b[2][::-1]):
+            if z == ("const", 0) and x[0] == "binop" and x[1] == "Sub" and x[3][0] == "const" and isinstance(x[3][1], int) and x[3][1] > 0 \
+                    and x[2] == ("call", ("glob", "len"), (strip_sites(base),), ()):
+                return ("const", -x[3][1])
+    return bound
+
+
 def _sub(base, idx) -> tuple:
+    if idx[0] == "slice" and (idx[1] is not None or idx[2] is not None):
+        lo, hi = _from_end(idx[1], base), _from_end(idx[2], base)
+        if lo is not idx[1] or hi is not idx[2]:
+            idx = ("slice", lo, hi, idx[3])
+    if base[0] == "call" and idx[0] == "const" and isinstance(idx[1], int) and _PROG[0] is not None and len(base) >= 4 and base[1][0] == "glob" and base[1][1] in _PROG[0].classes:
+        # item i of a NamedTuple built in place is its i-th field
+        c = _PROG[0].classes[base[1][1]]
+        fields = _record_fields(_PROG[0], base[1][1]) if any(b.endswith("NamedTuple") for b in c.bases) else None
+        if fields and -len(fields) <= idx[1] < len(fields):
+            fv = _record_field(_PROG[0], base, fields[idx[1]])
+            if fv is not None:
+                return fv
     if base[0] in ("tuple", "list") and idx[0] == "const" and isinstance(idx[1], int):
         if not any(x[0] == "star" for x in base[1]) and -len(base[1]) <= idx[1] < len(base[1]):
             return base[1][idx[1]]
